@@ -347,6 +347,7 @@ def run_kani(harnesses, jobs=None, timeout_s=None):
             outp2, rc2 = run_one(base_cmd + pb_flags + list(h.get('args', [])) + ['--harness', h['name'], '--exact'], h)
             r2 = parse_kani(outp2, [h['name']]).get(h['name'].split('::')[-1])
             if r2 and r2.get('playback'): r['playback'] = r2['playback']
+            if r2: r['cover_playbacks'] = r2.get('cover_playbacks', [])
         r.update(cmd=' '.join(cmd), wall_s=round(time.time() - t0, 1), from_cache=False, rc=rc)
         return h, r
 
@@ -391,10 +392,11 @@ def parse_kani(text, names):
         for cand in pbs:
             if not re.search(r'Check for `cover`', cand):
                 pb = cand; break
+        cover_pbs = [c for c in pbs if re.search(r'Check for `cover`', c)]
         unwind_fail = 'unwinding assertion' in b and re.search(r'unwinding assertion[^\n]*\n[^\n]*FAILURE', b) is not None
         res[short] = {'status': st, 'checks': checks, 'n_failed': nfailed, 'failed_checks': failed, 'time_s': float(tm.group(1)) if tm else None,
                       'covers': ({'satisfied': int(mcov.group(1)), 'total': int(mcov.group(2))} if mcov else None),
-                      'playback': pb, 'unwind_failure': unwind_fail,
+                      'playback': pb, 'cover_playbacks': cover_pbs[:8], 'unwind_failure': unwind_fail,
                       'raw_tail': b[-2500:] if st != 'success' else ''}
     return res
 
@@ -571,7 +573,8 @@ def decide(prop, tier, seed):
                 if 'unwinding assertion' in c['desc']: continue
                 violations.append({'obligation': '%s#%s' % (name, re.sub(r'\s+', '_', c['desc'])[:120]), 'engine': 'kani', 'harness': h['name'],
                                    'message': c['desc'], 'where': '%s:%s in %s' % (c['file'], c['line'], c['in']),
-                                   'playback': r.get('playback'), 'rendered': r.get('raw_tail', ''), 'input': r.get('playback')})
+                                   'playback': r.get('playback'), 'cover_playbacks': r.get('cover_playbacks', []),
+                                   'rendered': r.get('raw_tail', ''), 'input': r.get('playback')})
         else:
             undecided.append('%s: no result (%s) %s' % (name, r['status'], (r.get('raw_tail') or '')[-400:].replace('\n', ' | ')))
 
@@ -595,6 +598,13 @@ def decide(prop, tier, seed):
         replayed = None
         if vi.get('playback') and vi.get('harness'):
             replayed = replay_kani(vi)
+        elif vi.get('harness') and vi.get('cover_playbacks'):
+            # Kani printed no values for the failed check itself: try the inputs it printed for the harness' cover properties and keep
+            # the first one that makes the harness fail natively on the real code
+            for cand in vi['cover_playbacks']:
+                rr = replay_kani({'harness': vi['harness'], 'playback': cand})
+                if rr and rr.get('reproduced'):
+                    replayed = rr; vi['playback'] = cand; break
         json.dump({'property': prop, 'obligation': vi['obligation'], 'engine': vi['engine'], 'message': vi['message'],
                    'function': vi.get('fn'), 'file': vi.get('file'), 'orig_line': vi.get('orig_line'), 'clause': vi.get('clause'),
                    'callee_clause': vi.get('callee_clause'), 'harness': vi.get('harness'), 'where': vi.get('where'),
